@@ -235,27 +235,43 @@ fn effect_ran(e: usize) {
 }
 
 pub fn make_effect(kind: u8, e: usize, arg: u8) -> Option<Effect<Act>> {
+    make_effect_g::<Act>(kind, e, arg)
+}
+
+/// generic in the action type so that summary stubs (which must carry the generic
+/// signature of the function they replace) can build effects without reinterpreting a
+/// whole `Effect` value; the only instantiation is `Action = u8`
+pub fn make_effect_g<Action: Send + Sync + Clone + 'static>(kind: u8, e: usize, arg: u8) -> Option<Effect<Action>> {
+    assert!(core::mem::size_of::<Action>() == 1);
+    let a: Action = unsafe { core::mem::transmute_copy::<u8, Action>(&arg) };
     match kind {
-        E_TASK => Some(Effect::Task(Box::new(move || effect_ran(e)))),
-        E_THUNK => Some(Effect::Thunk(Box::new(move |d: Box<dyn Dispatcher<Act>>| {
+        E_TASK => {
+            core::mem::forget(a);
+            Some(Effect::Task(Box::new(move || effect_ran(e))))
+        }
+        E_THUNK => Some(Effect::Thunk(Box::new(move |d: Box<dyn Dispatcher<Action>>| {
             effect_ran(e);
             // the thunk uses the dispatcher it was handed
             if arg & 1 == 1 {
-                let r = d.dispatch(arg);
+                let r = d.dispatch(a);
                 unsafe {
                     EFF_DISPATCH[e] = if r.is_ok() { 1 } else { 2 };
                 }
+                core::mem::forget(r);
             }
             core::mem::forget(d);
         }))),
-        E_FUNCTION => Some(Effect::Function(
-            String::new(),
-            Box::new(move || {
-                effect_ran(e);
-                Ok(Box::new(()) as Box<dyn std::any::Any + Send>)
-            }),
-        )),
-        E_ACTION => Some(Effect::Action(arg)),
+        E_FUNCTION => {
+            core::mem::forget(a);
+            Some(Effect::Function(
+                String::new(),
+                Box::new(move || {
+                    effect_ran(e);
+                    Ok(Box::new(()) as Box<dyn std::any::Any + Send>)
+                }),
+            ))
+        }
+        E_ACTION => Some(Effect::Action(a)),
         _ => None,
     }
 }
